@@ -269,3 +269,15 @@ package codescan
 //@ props C17
 //@ safety
 //@ requires y != nil && y.set != nil
+
+// ---- merging with an input spec: every operation of the input is known by its id ----
+
+//@ func collectOperationsFromInput
+//@ props C17
+//@ safety
+//@ modifies nothing
+//@ ensures result != nil && vs_fresh(result)
+//@ loop 1 invariant operations != nil && vs_fresh(operations)
+//@ loop 1 step (pth.Get != nil ==> vs_has(operations, pth.Get.ID)) && (pth.Post != nil ==> vs_has(operations, pth.Post.ID)) && (pth.Put != nil ==> vs_has(operations, pth.Put.ID)) && (pth.Patch != nil ==> vs_has(operations, pth.Patch.ID)) && (pth.Delete != nil ==> vs_has(operations, pth.Delete.ID)) && (pth.Head != nil ==> vs_has(operations, pth.Head.ID)) && (pth.Options != nil ==> vs_has(operations, pth.Options.ID))
+//@ loop 1 step pth.Options != nil ==> operations[pth.Options.ID] == pth.Options
+//@ loop 1 step vs_all(func(k string) bool { return old(vs_has(operations, k)) ==> vs_has(operations, k) })
